@@ -174,7 +174,14 @@ theorem readSync_imec (conv : Int → Int → α) (pct : List (List α) → Opti
     (htyp : (ap = 0 ∧ lf ≠ 0) ∨ (ap ≠ 0 ∧ lf = 0)) (hntr : 1 ≤ ntr) (hrows : ∀ r ∈ rows, r.length = ntr) :
     readSync conv pct toI8 ntr (.imec ap lf 1) rows thr floor = .ok (rows.map (digitalLines ntr)) := by
   have hd := readSyncDigital_one ntr (.imec ap lf 1) rows
-    (by simp [syncIdx, htyp, List.range_succ]; omega) hntr hrows
+    (by
+      have ht : ∃ t, typeFromMeta (.imec ap lf 1) = some t := by
+        unfold typeFromMeta
+        rcases htyp with ⟨h0, h1⟩ | ⟨h0, h1⟩
+        · exact ⟨.lf, by simp [h0, h1]⟩
+        · exact ⟨.ap, by simp [h0, h1]⟩
+      obtain ⟨t, ht⟩ := ht
+      simp [syncIdx, ht, List.range_succ]; omega) hntr hrows
   unfold readSync
   rw [hd]
   simp [readSyncAnalog, analogIdx, digitalLines]
